@@ -3,6 +3,8 @@ that the symbolic engine cannot see through; the contract kept is stated in the
 docstring and listed in the evidence of the checks that use it."""
 
 
+from vf.engine import unmodelled  # noqa: E402
+
 class SizedPart:
     """A slice [start, start+n) of the request stream whose content is never
     inspected: only len() and truthiness.  Content identity is the offset, so
@@ -22,6 +24,7 @@ class SizedPart:
         return "<part %r+%r>" % (self.start, self.n)
 
 
+@unmodelled
 class SymStream:
     """wsgi.input: read(n) returns between 1 and n of the remaining bytes (the
     k-th read is additionally capped by frags[k]; afterwards reads are full),
@@ -64,6 +67,7 @@ class SymStream:
         return SizedPart(start, m)
 
 
+@unmodelled
 class PyBytesIO:
     """io.BytesIO / tempfile.TemporaryFile as seen from body_mixin: pure Python,
     immutable-bytes (or part list) concatenation; `spooled` tells which
@@ -235,6 +239,7 @@ class PyBytesIO:
         self.close()
 
 
+@unmodelled
 class _BufferView:
     """what BytesIO.getbuffer() gives: length, slices, bytes() of the content as of now"""
     def __init__(self, owner):
